@@ -397,6 +397,7 @@ AXIOMS_DOC = [
     "log(1) = 0; log strictly monotone on positive arguments (pairwise instances); log(exp(t)) = t and exp(log(t)) = t (t > 0 recorded as side condition) by construction",
     "-1 <= sin, cos <= 1; sin(t)^2 + cos(t)^2 = 1 for each argument t; sin(0)=0, cos(0)=1; parity sin(-t)=-sin t, cos(-t)=cos t (instances)",
     "arctan strictly monotone, |arctan| < pi/2 (pi a symbolic constant with 3.14159 < pi < 3.1416)",
+    "Erf (error function): odd, strictly monotone, |Erf| < 1, Erf(0) = 0, sign(Erf t) = sign t; erfc(t) = 1 - Erf(t)",
     "Phi (normal cdf): 0 < Phi < 1, Phi(0)=1/2, Phi(t)+Phi(-t)=1, strictly monotone",
     "sqrt(t) = s with s >= 0 and s*s = t (algebraic; side condition t >= 0)",
     "Ackermann congruence: equal arguments give equal values for every uninterpreted application",
@@ -517,6 +518,17 @@ def _atan_axioms(c, arg, v, earlier):
     return ax
 
 
+def _erf_axioms(c, arg, v, earlier):
+    # error function: odd, strictly monotone, |erf| < 1, erf(0) = 0, sign
+    ax = [v < 1, v > -1, z3.Implies(arg > 0, v > 0), z3.Implies(arg < 0, v < 0), z3.Implies(arg == 0, v == 0)]
+    for (a2, v2) in earlier:
+        ax.append(z3.Implies(arg < a2, v < v2))
+        ax.append(z3.Implies(arg > a2, v > v2))
+        ax.append(z3.Implies(arg + a2 == 0, v + v2 == 0))
+    return ax
+
+
+_erfu_term = _uf_term("Erf", _erf_axioms)
 _atan_term = _uf_term("arctan", _atan_axioms)
 _phi_term = _uf_term("Phi", _phi_axioms)
 _erf_term = None  # erf(t) = 2*Phi(t*sqrt2) - 1, defined in SR.erf
@@ -1019,7 +1031,10 @@ class SR(_Base, numbers.Real):
         return SR(_phi_term(self.e))
 
     def erf(self):
-        return 2 * (self * SR(q(2)).sqrt()).ncdf() - 1
+        return SR(_erfu_term(self.e))
+
+    def erfc(self):
+        return 1 - self.erf()
 
     def isnan(self):
         return False
